@@ -1,5 +1,9 @@
 """C10 — text given through the API reads back unchanged.
 
+ R0 central encoding: when every serialiser of the writer-side `Object` writes the payload of its
+    String arm through a text-string encoder (one that can emit FE FF), a run-time `String` stored as
+    `Object::String` is encoded at write time and R1 is discharged for all sites at once.
+
  R1 text-string typing: at every site that stores `Object::String(x)` under a dictionary key that
     ISO 32000-1 types as *text string* (Title, Author, Subject, Keywords, Creator, Producer, Contents,
     T, TU, TM, NM, RC, Subj, Alt, ActualText, E, V/DV of text fields), `x` is either a compile-time literal or the
@@ -23,8 +27,11 @@ def encoders(facts):
     """functions that mention both 0xFE and 0xFF byte constants next to each other (BOM emitters)"""
     out = set()
     for fid, fn in facts.fns.items():
-        vals = [v for b, ty, v in FL.fn_consts(fn) if ty == "u8" and isinstance(v, int)]
-        if 0xFE in vals and 0xFF in vals:
+        byblk = {}
+        for b, ty, v in FL.fn_consts(fn):
+            if ty == "u8" and isinstance(v, int):
+                byblk.setdefault(b, set()).add(v)
+        if any({0xFE, 0xFF} <= vs for vs in byblk.values()):
             out.add(fn.parent or fid)
         for b, ty, v in FL.fn_consts(fn):
             if isinstance(v, dict) and "b" in v and len(v["b"]) >= 2 and v["b"][0] == 0xFE and v["b"][1] == 0xFF:
@@ -32,10 +39,48 @@ def encoders(facts):
     return out
 
 
+def reaches_encoder(facts, fid, enc, depth=3):
+    if fid in enc or fid.split("::{")[0] in enc:
+        return True
+    if depth == 0:
+        return False
+    return any(reaches_encoder(facts, c, enc, depth - 1) for c in facts.callees.get(fid, ()) if c in facts.fns)
+
+
+def central_string_encoding(ctx, enc):
+    """R0: do the serialisers of the writer-side `Object` encode the String arm as a text string?  Returns True when every one
+    of them routes the String payload through a BOM-emitting encoder (then a raw `Object::String(text)` is encoded at write
+    time and the per-site obligation R1 is discharged centrally)."""
+    from .. import tokens as TK
+    facts = ctx.facts
+    sers = [(fn, m) for fn, m in TK.serializers(facts) if m["sty"].endswith("objects::primitive::Object")]
+    if not ctx.floor("R0", "serialisers of objects::primitive::Object", len(sers), 3):
+        return False
+    allok = True
+    for fn, m in sers:
+        sname = "::".join(fn.id.split("::")[-2:])
+        i = TK.arm_index(m, "String")
+        if i is None:
+            ctx.undecided_site("R0", "%s:String-arm" % sname, "no String arm found", fn.where())
+            allok = False
+            continue
+        lo, hi = TK.arm_range(fn, m, i)
+        local = TK.local_callees_in_lines(facts, fn, lo, hi)
+        hit = [c for c in local if reaches_encoder(facts, c, enc)]
+        if hit:
+            ctx.ok("R0", "%s:String-arm" % sname, "String payload written through %s, which reaches a FE FF + UTF-16BE encoder" % L.short(hit[0]),
+                   "%s:%d" % (m["file"], lo))
+        else:
+            allok = False
+            ctx.note("serialiser %s writes Object::String payloads as raw bytes (no text-string encoder in its String arm)" % sname)
+    return allok
+
+
 def run(ctx):
     facts = ctx.facts
     enc = encoders(facts)
     ctx.counts["bom_emitting_functions"] = len(enc)
+    central = central_string_encoding(ctx, enc)
     n = 0
     for fid, fn in sorted(facts.fns.items()):
         owner = fn.parent or fid
@@ -75,7 +120,9 @@ def run(ctx):
                        and not (cc.get("p") or "").startswith("core::fmt::rt::") and not (cc.get("p") or "").startswith("std::fmt::Arguments")]
             reads_state = any(d[0] == "arg" for d in pd) or any(
                 d[0] == "stmt" and any(FL.op_place(o) and FL.op_place(o)[1] for o in FL.rvalue_operands(fn.blocks[d[1]][0][d[2]][2])) for d in pd)
-            if from_encoder or owner in enc:
+            if central and not from_encoder:
+                ctx.ok("R1", k, "stored as Object::String; every Object serialiser encodes non-ASCII String payloads as FE FF + UTF-16BE (R0)", where)
+            elif from_encoder or owner in enc:
                 ctx.ok("R1", k, "value passes a text-string encoder (%s)" % L.short((from_encoder[0].get("r") if from_encoder else owner)), where)
             elif not reads_state and not dynamic:
                 ctx.ok("R1", k, "compile-time literal", where, nontrivial=False)
@@ -89,12 +136,24 @@ def run(ctx):
     # R2 incremental writers
     for fid, what in (("writer::incremental_text_notes::pdf_text", "note contents"),):
         fn = ctx.fn(fid, "R2")
-        if fid in enc:
-            ctx.ok("R2", "%s:encoder" % L.short(fid), "emits FE FF + UTF-16BE", fn.where())
+        if reaches_encoder(facts, fid, enc):
+            ctx.ok("R2", "%s:encoder" % L.short(fid), "emits FE FF + UTF-16BE (itself or through a shared encoder)", fn.where())
         else:
             ctx.violation("R2", "%s:encoder" % L.short(fid), "%s are not encoded as a text string" % what, fn.where())
     ff = [f for f in facts.fns.values() if f.id.startswith("writer::incremental_form_fill::")]
     ff_enc = [f.id for f in ff if (f.parent or f.id) in enc]
+    # or: the value stored under /V is the result of a call that reaches an encoder
+    for f in ff:
+        flf = FL.flow(f)
+        for b, s_, c in L.str_args(f, ["PdfDictionary::insert"]):
+            if s_ != "V":
+                continue
+            t = f.term(b)
+            seen, drecs = flf.back_slice([l for o in t[2][2:] for l in FL.op_locals(o)])
+            for cb, cc in flf.calls_in_slice(drecs):
+                r = cc.get("r") or ""
+                if r in facts.fns and reaches_encoder(facts, r, enc):
+                    ff_enc.append(r)
     vsets = []
     for f in ff:
         for b, s, c in L.str_args(f, ["PdfDictionary::insert"]):
